@@ -169,6 +169,10 @@ def run(repo: Repo) -> Result:
                             ok = True
                         elif isinstance(n_arg, ast.Name):
                             ok = _same_origin(f.node, n_arg.id, itnames)
+                            # ... or a local bound only from len(<the iterated value>): `length = len(val)`
+                            lb = [st.value for st in ast.walk(f.node) if isinstance(st, ast.Assign) and len(st.targets) == 1 and is_name(st.targets[0], n_arg.id)]
+                            if not ok and lb and all(isinstance(v, ast.Call) and is_name(v.func, "len") and len(v.args) == 1 and names_in(v.args[0]) & itnames for v in lb):
+                                ok = True
                     elif callee_name(g) == "loop" and len(g.args) >= 2 and isinstance(g.args[1], ast.Name):
                         # forloop = ForLoop(it=it, length=length, ...) and `for itm in forloop`
                         fl = g.args[1].id
